@@ -78,4 +78,12 @@ func registerSpecs() {
 		Real: sshReal, Stub: sauthStub,
 		Assumptions: []string{"'an initial none attempt is free' is read both ways (first request only / first none before any failure): the server must have disconnected once the failure count reaches MaxAuthTries under the lenient reading", "a source-address option admits the client only if some entry validly matches (exact IP or CIDR); how malformed entries are treated otherwise is not asserted"},
 	}
+	specs["C50"] = &spec{
+		Harness: "acme", Level: "exploration", QuickRuns: 60000, ThoroughRuns: 900000, Chunk: 1000,
+		InstrPkgs: []string{"./acme", "./verifh/..."},
+		Rule: "one case = one generated scenario (1-3 caller tasks sharing one acme.Client, 1-12 operations out of register/getreg/updatereg/deactivate/neworder/authorize/getorder/waitorder/getauthz/waitauthz/revokeauthz/getchallenge/accept/finalize/fetchcert/listalt/revoke with context deadlines or cancellations of 0/40ms..45s, default or custom RetryBackoff stopping after 0..3 retries, a fault plan for the first 10-40 replies: badNonce, 5xx, 429 with Retry-After in seconds or date form, fatal 4xx, dropped reply, malformed body, missing Replay-Nonce, slow reply 5ms..30s; order/authorization objects needing 0-3 polls, ending valid or invalid) under one seeded schedule; non-trivial = the CA received at least one signed request; distinct = distinct hash of (schedule at context switches, harness events)",
+		Real: []string{"golang.org/x/crypto/acme (instrumented copy of the working tree): Client and its nonce pool, post/get retry loops, retryTimer/defaultBackoff, JWS encoding, all RFC 8555 operations; net/http.Client.Do (uninstrumented standard library, no transport)"},
+		Stub: []string{"ACME CA (http.RoundTripper in the harness: directory, newNonce, newAccount, newOrder, newAuthz, order, authz, challenge, finalize, certificate, revoke; reads nonce and url from the JWS protected header, verifies no signature)", "application callers (harness tasks)", "goroutine scheduler and clock (verifsimrt baton scheduler inside a testing/synctest bubble)", "crypto/rand (testing/cryptotest.SetGlobalRandom, seeded)"},
+		Assumptions: []string{"a request is attributed to a client call through the context the client passes to HTTPClient; a request without it is attributed only when a single call is in flight", "return at the context's end is judged exactly only with a single caller (with several callers a call may wait behind another call's lock, which is not a retry)", "liveness is judged at quiescence: no task runnable, no timer pending", "the exact back-off schedule is not asserted (only: consulted, n counted from 1, not earlier than the returned duration / Retry-After, never after a non-positive return)"},
+	}
 }
